@@ -1,15 +1,37 @@
 import RawPanelVerif.Lemmas.InBits
 import RawPanelVerif.Lemmas.TotalIn
 import RawPanelVerif.Lemmas.EncSoundAll
+import RawPanelVerif.Lemmas.EncMaskAll
 /-!
 # C01 — inbound messages keep their meaning when written as ASCII lines
 
 Kernels (each for ALL values, by arithmetic, not enumeration):
-* `mode_pack`, `ext_pack`, `colIndex_pack`, `colRGB_pack`, `textColor_pack` — the packed integers the encoder writes
+* `mode_pack`, `ext_pack`, `colIndex_pack`, `colRGB_pack`, `textColor_pack_*` — the packed integers the encoder writes
   are read back by the reference reader as the fields of the message (colours: the 2-bit level of each channel);
+  `mode_pack_masked`, `ext_pack_masked`, `colIndex_pack_masked` — the same WITHOUT range hypothesis (any `int32` /
+  `uint32`, negative included): the reader recovers the low bits the field width carries;
 * `text_fields` — the trimmed `|`-join of any field list is re-split to the same fields padded with empties;
 * `chunk_len_le_170`, `chunk_count`, `chunks_concat`, `b64_roundtrip` — the chunk loop never panics, emits
   ⌈len/170⌉ lines of 1..170 bytes whose concatenation is the image, and base64 decodes back.
+
+Main theorems (unbounded in messages, states, ids):
+* `enc_ok` — the encoder returns on every input;
+* `enc_sound` — on `inDomainIn` (the property's quantifier) `readInbound (encIn ms) = ms.flatMap effectsOfIn`: list
+  equality, hence submission order of messages, list order of states, of the component ids of a state, of the sections
+  of one id (mode, colour, extended, text, graphics, raw-ADC) and of registers (`enc_sound_append` for messages);
+* `enc_sound_masked` — on the much larger `inWireDomain` (NO enum / bit-field range, "one of" colours with both
+  alternatives, second line without pair mode, images without data, negative enum arguments, any flow / register /
+  environment number): the reader reads the effects of `Spec.In.maskMsg m`, the message reduced to what the field widths
+  carry; `wire_domain_contains_domain`, `mask_invisible_on_domain` (the two theorems agree on `inDomainIn`);
+  `text_line_masked` (the 21-field line of any non-default text record), `both_colours_rgb_wins`, `pair_mode_inferred`.
+  What `inWireDomain` still asks: ids / sizes / verbatim-printed integers inside their Go types (true of every protobuf
+  value), string fields free of `|` and LF (C07's subject), register ids in `[A-Z0-9]*` (FLAG: digits), no `Processors`
+  (JSON only), and the `encoding/json` round-trip law for a `SetNetworkConfig` argument (oracle; `witnessOracle` is a
+  concrete oracle satisfying it non-trivially, with examples that contain the command).
+
+The check evaluates the same predicates on the implementation's lines with EXACT list equality per message (nothing on
+the inbound side iterates over a Go map, so no permutation is tolerated): `effectsOfIn` on `inDomainIn`, the effects of
+`maskMsg` on `inWireDomain \ inDomainIn` (tag `B:wiredom`).
 -/
 namespace RawPanelVerif.C01
 open RawPanelVerif RawPanelVerif.Bytes RawPanelVerif.MsgIn RawPanelVerif.Model.In RawPanelVerif.InBits RawPanelVerif.TotalIn
@@ -124,6 +146,157 @@ example : inDomainIn default sampleMsgs = true := by decide +kernel
 /-- the theorem applied to the sample: 1 + 3 + 2·6 + 2 + 1 effects -/
 example : (readInbound default (encIn default sampleMsgs)).length = 19 := by
   rw [enc_sound default sampleMsgs (by decide +kernel)]
+  decide +kernel
+
+/-! ## outside the representable domain: what the wire carries (no enum / bit-field range hypothesis)
+
+`enc_sound` asks `inDomainIn` (state 0-5, blink < 16, value < 4096, index < 32, icons / fonts / sizes in range, "one of"
+colours, pair mode present with a second line, image data ≥ 1 byte …).  `enc_sound_masked` drops every such range: on
+`inWireDomain` (only: ids / sizes / verbatim-printed integers within their Go types, strings free of `|` and LF, register
+ids in their alphabet, the `SetNetworkConfig` oracle law, no `Processors`) the reference reader reads from the encoder's
+lines exactly the effects of `maskMsg m` — the message with every field reduced to the width the packed integers carry
+(`Spec.In.maskMsg`: two's-complement low bits, RGB wins over the index, inferred pair mode, no scale without positive
+type, no image without data, no negative enum argument).  So the mask / wrap behaviour of the 32-bit fields is part of
+a theorem, and a change of a mask constant or shift in the encoder breaks it for out-of-range values too. -/
+
+/-- `HWC#` for EVERY state (any `int32`, negative included), output flag and blink mask (any `uint32`) -/
+theorem mode_pack_masked (s : Int) (b : Nat) (o : Bool) :
+    readMode (modeInt { state := s, output := o, blink := b }) = { state := (s % 8).toNat, output := o, blink := b % 16 } :=
+  EncMask.mode_packW s b o
+
+/-- `HWCx#` for EVERY interpretation and value -/
+theorem ext_pack_masked (i : Int) (v : Nat) :
+    readExt (extInt { interp := i, value := v }) = { interp := (i % 16).toNat, value := v % 4096 } :=
+  EncMask.ext_packW i v
+
+/-- `HWCc#` index colours: EVERY index, the low 5 bits are carried -/
+theorem colIndex_pack_masked (i : Int) : readColor (colorIndexInt i) = .index (i % 32).toNat :=
+  EncMask.colIndex_packW i
+
+/-- the `HWCt#` line of EVERY non-default text record with verbatim fields inside their Go types is read as the
+normal form of the masked record -/
+theorem text_line_masked (t : Text) (hne : t ≠ {}) (hok : textWire t = true) :
+    readText (implodeRTE 124 (textField0P t :: textFieldsTail t)) = some (normText (textOf (maskText t))) :=
+  EncMask.readText_encW t hne hok
+
+/-- **C01 outside the enum / bit-field ranges** (unbounded in messages, states, ids): the lines of any list of
+messages of `inWireDomain`, read by the reference reader, are exactly the effects of the masked messages, in order -/
+theorem enc_sound_masked (O : Oracles) (ms : List InMsg) (h : inWireDomain O ms = true) :
+    readInbound O (encIn O ms) = (ms.map maskMsg).flatMap effectsOfIn :=
+  EncMask.enc_sound_masked_all O ms h
+
+/-- `inWireDomain` contains `inDomainIn` (so `enc_sound_masked` also speaks about every message of `enc_sound`) -/
+theorem wire_domain_contains_domain (O : Oracles) (ms : List InMsg) (h : inDomainIn O ms = true) : inWireDomain O ms = true :=
+  EncMask.wire_of_domain O ms h
+
+/-- … and on `inDomainIn` masking changes no effect: the two theorems agree there -/
+theorem mask_invisible_on_domain (O : Oracles) (ms : List InMsg) (h : inDomainIn O ms = true) :
+    (ms.map maskMsg).flatMap effectsOfIn = ms.flatMap effectsOfIn := by
+  rw [← enc_sound_masked O ms (wire_domain_contains_domain O ms h), enc_sound O ms h]
+
+/-- **a colour with both alternatives set** (excluded by `inDomainIn`): the code's behaviour is determinate — the RGB
+alternative is written (`HWCc#` and text colour fields alike), exactly what `Spec.colorOf` assigns to such a colour -/
+theorem both_colours_rgb_wins (O : Oracles) (id : Nat) (hid : id < 4294967296) (rgb : ColorRGB) (i : Int) :
+    readInbound O (encIn O [{ states := [{ ids := [id], color := some { rgb := some rgb, index := some i } }] }]) =
+      [.setColor id (.rgb (level2 rgb.red) (level2 rgb.green) (level2 rgb.blue))] := by
+  rw [enc_sound_masked O _ (by
+    simp only [inWireDomain, msgWire, stateWire, optOk, List.all_cons, List.all_nil, Bool.and_true, Bool.true_and, u32ok,
+      Option.isNone_none, decide_eq_true_eq]
+    exact hid)]
+  rfl
+
+/-- **pair mode 0 with a second line / second value** (excluded by `inDomainIn`): the masked record has pair mode 1 —
+by `text_line_masked` / `enc_sound_masked` that is what the reader reads (Appendix B: pair mode ≥ 1 is implied by a
+present field 6 or 7) -/
+theorem pair_mode_inferred (t : Text) (h2 : t.textline2 ≠ [] ∨ t.integerValue2 ≠ 0) (hp : t.pairMode < 1) :
+    (maskText t).pairMode = 1 := by
+  have hne : t ≠ {} := by
+    intro e
+    subst e
+    rcases h2 with h | h
+    · exact h rfl
+    · exact h rfl
+  rw [EncMask.mt_pm t hne]
+  have : secondPresent t = true := by
+    unfold secondPresent
+    rcases h2 with h | h
+    · simp [h]
+    · simp [h]
+  rw [this]
+  simp [hp]
+
+/-! ### non-vacuity of the masked theorems -/
+
+/-- out-of-range everything: state 13 (→ 5), blink 0x1F3 (→ 3), interpretation 19 (→ 3), value 5000 (→ 904), both
+colour alternatives, icons 7 / 9, font face 13, width 6, padding 5, second line without pair mode, negative
+formatting, scale of type 0, image type 9, an image without data, `SleepMode=-1`, flow 9, register kind 7 -/
+def wildMsgs : List InMsg :=
+  [ { flow := 9,
+      command := some { setSleepMode := some (-1), loadCPU := some 3, simulateEnvironmentalHealth := some 5 },
+      states := [ { ids := [3, 40],
+                    mode := some { state := 13, output := true, blink := 499 },
+                    color := some { rgb := some { red := 255, green := 128, blue := 0 }, index := some 77 },
+                    ext := some { interp := 19, value := 5000 },
+                    text := some { integerValue := -12, formatting := -3, stateIcon := 7, modifierIcon := 9, title := asc "Vol",
+                                   textline1 := asc "L1", textline2 := asc "L2", pairMode := 0,
+                                   scale := some { scaleType := 0, rangeLow := -100, rangeHigh := 100 },
+                                   textStyling := some { textFont := some { face := 13, height := 1, width := 6 }, titleBarPadding := 5 },
+                                   pixelColor := some { index := some 45 } },
+                    gfx := some { imageType := 9, w := 8, h := 8, imageData := [1, 2, 3] } },
+                  { ids := [7], gfx := some { w := 8, h := 8 }, mode := some { state := -1 } } ],
+      registers := [ { reg := 7, id := asc "A1", value := 9 }, { reg := 0, id := asc "A1", value := 9 } ] } ]
+
+example : inWireDomain default wildMsgs = true ∧ inDomainIn default wildMsgs = false := by decide +kernel
+
+example : readInbound default (encIn default wildMsgs) =
+    [ .cmd (.loadCPU 3),
+      .setMode 3 { state := 5, output := true, blink := 3 }, .setColor 3 (.rgb 3 1 0), .setExt 3 { interp := 3, value := 904 },
+      .setText 3 (normText { value := -12, stateIcon := 3, modIcon := 1, title := asc "Vol", line1 := asc "L1", line2 := asc "L2",
+                             pairMode := 1, textFace := 5, textW := 2, textH := 1, padding := 1, pixelColor := some (.index 13) }),
+      .setGfx 3 { kind := .mono, w := 8, h := 8, xy := none, data := [1, 2, 3] },
+      .setMode 40 { state := 5, output := true, blink := 3 }, .setColor 40 (.rgb 3 1 0), .setExt 40 { interp := 3, value := 904 },
+      .setText 40 (normText { value := -12, stateIcon := 3, modIcon := 1, title := asc "Vol", line1 := asc "L1", line2 := asc "L2",
+                              pairMode := 1, textFace := 5, textW := 2, textH := 1, padding := 1, pixelColor := some (.index 13) }),
+      .setGfx 40 { kind := .mono, w := 8, h := 8, xy := none, data := [1, 2, 3] },
+      .setMode 7 { state := 7, output := false, blink := 0 },
+      .reg .mem (asc "A1") 9 ] := by
+  rw [enc_sound_masked default wildMsgs (by decide +kernel)]
+  decide +kernel
+
+example : (maskText { textline2 := asc "b", pairMode := 0 }).pairMode = 1 :=
+  pair_mode_inferred _ (Or.inl (by decide)) (by decide)
+
+/-! ### `SetNetworkConfig`: a witness oracle
+
+The `SetNetworkConfig` clause of `inDomainIn` / `inWireDomain` is the round-trip law `parseNet (netJson n) = some n` of
+the `encoding/json` oracle; the default oracle has `parseNet := none`, so no example above contains that command.
+`witnessOracle` is a concrete oracle with a non-trivial `netJson` / `parseNet` pair that satisfies the law for two
+configurations; with it the clause is exercised. -/
+
+def witnessCfg : NetCfg := { dhcp := true, address := asc "10.0.0.5", netmask := asc "255.255.255.0", gateway := asc "10.0.0.1" }
+def witnessJson : Bytes := asc "{\"dhcp\":true,\"address\":\"10.0.0.5\",\"netmask\":\"255.255.255.0\",\"gateway\":\"10.0.0.1\"}"
+
+def witnessOracle : Oracles :=
+  { netJson := fun n => if n = witnessCfg then witnessJson else asc "{}",
+    parseNet := fun t => if t = witnessJson then some witnessCfg else if t = asc "{}" then some {} else none,
+    parseState := fun _ => {},
+    parseMsgs := fun _ => [] }
+
+def netMsgs : List InMsg :=
+  [ { command := some { sendNetworkConfig := true, setNetworkConfig := some witnessCfg } },
+    { command := some { setNetworkConfig := some {} } } ]
+
+example : inDomainIn witnessOracle netMsgs = true := by decide +kernel
+
+/-- a configuration for which the oracle law fails is outside the domain (the law is not vacuous) -/
+example : inDomainIn witnessOracle [{ command := some { setNetworkConfig := some { dhcp := true } } }] = false := by decide +kernel
+
+example : readInbound witnessOracle (encIn witnessOracle netMsgs) =
+    [.cmd .sendNetworkConfig, .cmd (.setNetworkConfig witnessCfg), .cmd (.setNetworkConfig {})] := by
+  rw [enc_sound witnessOracle netMsgs (by decide +kernel)]
+  decide +kernel
+
+example : encIn witnessOracle netMsgs = [asc "NetworkConfig?", asc "SetNetworkConfig=" ++ witnessJson, asc "SetNetworkConfig={}"] := by
   decide +kernel
 
 end RawPanelVerif.C01
